@@ -14,6 +14,7 @@ import (
 	"go/printer"
 	"go/token"
 	"path/filepath"
+	"regexp"
 	"sort"
 	"strings"
 )
@@ -88,10 +89,28 @@ func extractMemoCell() {
 				}
 				return true
 			})
+			// A top-level statement that does not mention the receiver cannot touch the cell (a new local, a counter, a log line):
+			// it is not part of the shape. The receiver is written `l` whatever it is called, so that the shapes do not
+			// depend on its name.
+			mentionsRecv := func(n ast.Node) bool {
+				found := false
+				ast.Inspect(n, func(m ast.Node) bool {
+					if id, ok := m.(*ast.Ident); ok && id.Name == recvName {
+						found = true
+					}
+					return !found
+				})
+				return found
+			}
+			recvRe := regexp.MustCompile(`\b` + regexp.QuoteMeta(recvName) + `\b`)
+			norm := func(t string) string { return recvRe.ReplaceAllString(t, "l") }
 			stmts := func() []string {
 				var r []string
 				for _, s := range fd.Body.List {
-					r = append(r, oneLine(nodeText(fset, s)))
+					if _, isRet := s.(*ast.ReturnStmt); !isRet && !mentionsRecv(s) {
+						continue
+					}
+					r = append(r, norm(oneLine(nodeText(fset, s))))
 				}
 				return r
 			}
@@ -102,14 +121,17 @@ func extractMemoCell() {
 				evaluatedShape = stmts()
 			case "Eval":
 				for _, s := range fd.Body.List {
+					if _, isRet := s.(*ast.ReturnStmt); !isRet && !mentionsRecv(s) {
+						continue
+					}
 					// top level: the text up to the first brace is enough to see the shape
-					t := oneLine(nodeText(fset, s))
+					t := norm(oneLine(nodeText(fset, s)))
 					if i := strings.Index(t, "{"); i >= 0 {
 						t = strings.TrimSpace(t[:i])
 					}
 					evalShape = append(evalShape, t)
 				}
-				locksFirst = len(evalShape) >= 2 && evalShape[0] == recvName+".mu.Lock()" && evalShape[1] == "defer "+recvName+".mu.Unlock()"
+				locksFirst = len(evalShape) >= 2 && evalShape[0] == "l.mu.Lock()" && evalShape[1] == "defer l.mu.Unlock()"
 				// the range loop over the producer
 				var loop *ast.RangeStmt
 				ast.Inspect(fd.Body, func(n ast.Node) bool {
